@@ -356,8 +356,9 @@ def _changed(before, objs):
     return out
 
 
-def run_plot(vp, vu, plt, case, objs=None):
-    """one call of plot_2D_contour; `objs` = the caller's objects when they are reused over several calls"""
+def run_plot(vp, vu, plt, case, objs=None, keep_open=False):
+    """one call of plot_2D_contour; `objs` = the caller's objects when they are reused over several calls;
+    keep_open: the figures are NOT closed afterwards (a user session in which earlier figures still exist)"""
     objs = objs or plot_objects(case)
     cont, sample, arg = objs["cont"], objs["sample"], objs["arg"]
     dc = case["dc"]
@@ -384,8 +385,11 @@ def run_plot(vp, vu, plt, case, objs=None):
            "line": np.asarray(ax.lines[0].get_xydata(), dtype=float) if ax.lines else np.zeros((0, 2)),
            "colls": [np.asarray(np.ma.filled(c.get_offsets(), np.nan), dtype=float) for c in ax.collections],
            "ret_dc": None if ret_dc is None else np.asarray(ret_dc, dtype=float),
-           "same_ax": (ax_in is None) or (ax is ax_in)}
-    plt.close("all")
+           "same_ax": (ax_in is None) or (ax is ax_in), "ax_id": id(ax), "fig_id": id(ax.figure)}
+    if keep_open:
+        res["_ax"] = ax          # keeps the Axes alive so that ids stay distinct
+    else:
+        plt.close("all")
     computed = None
     if dc == "true":
         try:
@@ -446,19 +450,32 @@ def oracle_plot(case, res):
 
 
 def plot_history(vp, vu, plt, case, swaps):
-    """plot the SAME contour / sample / design-condition objects several times (swap_axis as given); every plot
-    is judged against the values supplied at the start.  None or (index, signature, message)"""
+    """plot the SAME contour / sample / design-condition objects several times (swap_axis as given) WITHOUT closing
+    the figures in between, as in a user session; every plot is judged against the values supplied at the start,
+    and a call without ax= must draw into a figure of its own.  None or (index, signature, message)"""
+    plt.close("all")
     objs = plot_objects(case)
+    seen_axes = []
+    found = None
     for j, sw in enumerate(swaps):
         c = dict(case, swap=sw)
-        r = run_plot(vp, vu, plt, c, objs)
+        r = run_plot(vp, vu, plt, c, objs, keep_open=True)
         s, msg = oracle_plot(c, r)
+        if s is None and "ax_id" in r and not c.get("own_ax") and r["ax_id"] in [a for a, _ in seen_axes]:
+            s, msg = {"function": "plot_2D_contour", "clause": "axes-reused"}, "a call without ax= returned the axes of an earlier call instead of a new figure"
+        if "ax_id" in r:
+            seen_axes.append((r["ax_id"], r.get("_ax")))
         if s is not None:
-            alone, _ = oracle_plot(c, run_plot(vp, vu, plt, c))
-            if alone is not None and alone.get("clause") == s.get("clause"):
-                continue     # fails on fresh objects too: not a matter of history (the case stream reports it)
-            return j, dict(s, history=True), "plot %d of %d with the same objects (swap_axis history %r): %s" % (j + 1, len(swaps), swaps[:j + 1], msg)
-    return None
+            found = (j, c, s, msg)
+            break
+    plt.close("all")
+    if found is None:
+        return None
+    j, c, s, msg = found
+    alone, _ = oracle_plot(c, run_plot(vp, vu, plt, c))
+    if alone is not None and alone.get("clause") == s.get("clause"):
+        return None      # fails on fresh objects in a fresh session too: not a matter of history (the case stream reports it)
+    return j, dict(s, history=True), "plot %d of %d with the same objects, earlier figures still open (swap_axis history %r): %s" % (j + 1, len(swaps), swaps[:j + 1], msg)
 
 
 def coq_plot(case, res):
@@ -487,13 +504,23 @@ def gen_dataset(rng, nprng, n):
     while len(set(names)) < len(names):   # pandas renames duplicate columns: not part of the format
         names = [names[0]] + ["%s_%d" % (nm, j) for j, nm in enumerate(names[1:])]
     t0 = datetime.datetime(rng.randrange(1950, 2030), rng.randrange(1, 13), rng.randrange(1, 28), rng.randrange(0, 24))
-    mode = rng.choice(["hourly", "hourly", "3hourly", "gaps", "shuffled"])
+    mode = rng.choice(["hourly", "hourly", "3hourly", "gaps", "shuffled", "repeated", "repeated", "overlap"])
     ts, t = [], t0
     for i in range(n):
         ts.append(t)
         t = t + datetime.timedelta(hours={"hourly": 1, "3hourly": 3}.get(mode, rng.choice([1, 1, 2, 24, 700])))
     if mode == "shuffled":
         rng.shuffle(ts)
+    elif mode == "repeated" and n >= 2:
+        # an hour logged twice (or more): every row is a data row of its own
+        for _ in range(max(1, n // 10)):
+            i = rng.randrange(1, n)
+            ts[i] = ts[i - 1]
+    elif mode == "overlap" and n >= 2:
+        # two overlapping records in one file: the second half starts again inside the first
+        h = n // 2
+        back = rng.randrange(1, h + 1)
+        ts = ts[:h] + [ts[h - back] + (x - ts[h]) for x in ts[h:]]
     vals = nprng.uniform(0, 30, (n, ncol))
     neg = rng.random() < 0.2
     if neg:
@@ -1204,6 +1231,23 @@ def run(ctx):
             if s1 is not None and s1.get("clause") == s.get("clause"):
                 c, s, msg = one, s1, msg1
                 break
+        if c["n"] > 2:
+            # ... or to two data rows (e.g. two rows with the same time stamp)
+            first = {}
+            pairs = []
+            for r_i, t in enumerate(c["ts"][:3000]):
+                if t in first:
+                    pairs.append((first[t], r_i))
+                else:
+                    first[t] = r_i
+            pairs = pairs[:40] + [(r_i, r_i + 1) for r_i in range(min(c["n"], 200) - 1)]
+            for a_, b_ in pairs:
+                two = dict(c, content="\n".join([lines[0], lines[1 + a_], lines[1 + b_]]) + "\n", ts=[c["ts"][a_], c["ts"][b_]],
+                           cells=[c["cells"][a_], c["cells"][b_]], n=2)
+                s2_, msg2_ = oracle_read(two, run_read(vu, two, "two"))
+                if s2_ is not None and s2_.get("clause") == s.get("clause"):
+                    c, s, msg = two, s2_, msg2_
+                    break
         rep = {"function": c["function"], "content": c["content"] if c["n"] <= 50 else "\n".join(c["content"].split("\n")[:51]) + "\n",
                "names": c["names"], "fmts": c["fmts"], "ts": [t.strftime("%Y-%m-%d-%H") for t in c["ts"][:50]], "cells": c["cells"][:50], "n": min(c["n"], 50), "sep": c["sep"]}
         ctx.violation(s, "read_ec_benchmark_dataset(file of %d rows, separator %r): %s" % (c["n"], c["sep"], msg), rep)
